@@ -81,7 +81,13 @@ fn interpret(ops: &[DnOp], alphabet: &[DnTypeSpec], check: bool) -> Result<(rcge
 		match op {
 			DnOp::Push(ti, v) => {
 				let t = &alphabet[*ti as usize % alphabet.len()];
-				dn.push(mk::dn_type(t), mk::dn_value(v).map_err(|e| format!("invalid generated value: {e}"))?);
+				// a value the constructor refuses cannot be pushed by any caller: the operation is a no-op
+				// (whether the constructor is right to refuse is C13's subject, not this property's)
+				let val = match mk::dn_value(v) {
+					Ok(val) => val,
+					Err(_) => continue,
+				};
+				dn.push(mk::dn_type(t), val);
 				if let Some(e) = model.iter_mut().find(|(t2, _)| t2 == t) {
 					e.1 = v.clone();
 					interesting = true; // replace
